@@ -23,7 +23,7 @@
            | iter(names, e, body) | break | cont | ret(e) | throw(cls, args)
      expr  = num(v) | str(v) | bool(v) | null | var(n) | bin(op, l, r) | list(items)
            | dict(keys, vals) | idx(e, i) | mem(e, p) | this(p) | call(f, args, y)
-           | mcall(e, m, args) | new(cls, args) | asg(tgt, e)
+           | mcall(e, m, args [, y]) | new(cls, args) | asg(tgt, e)          (y: 得到 name, methods of objects only)
    Statement paths: <<b, j>> = j-th statement of body b (0 main, i function i, 100c+m method m of
    class c, 100c constructor); nested blocks append <<arm, j>>; catch block q of a body: <<b, -q, j>>.
    Names are ASCII symbols (TLC's Json module cannot carry non-ASCII text): "@display" = 显示,
@@ -80,7 +80,7 @@ CE(e) ==
                    [] e.e.k = "idx" -> CE(v) \o CE(e.e.e) \o CE(e.e.i) \o << Ins("storeidx") >>
                    [] e.e.k = "mem" -> CE(v) \o CE(e.e.e) \o << [i |-> "storemem", p |-> e.e.p] >>
                    [] e.e.k = "this" -> CE(v) \o << [i |-> "storethis", p |-> e.e.p] >>
-         ELSE CE(e.e) \o CEs(e.args) \o << [i |-> "mcall", m |-> e.m, n |-> Len(e.args)] >>
+         ELSE CE(e.e) \o CEs(e.args) \o << [i |-> "mcall", m |-> e.m, n |-> Len(e.args), y |-> IF "y" \in DOMAIN e THEN e.y ELSE ""] >>
     [] e.k = "new" -> CEs(e.args) \o << [i |-> "new", cls |-> e.cls, n |-> Len(e.args)] >>
     [] e.k = "asg" ->
          CASE e.tgt.k = "var" -> CE(e.e) \o << [i |-> "store", n |-> e.tgt.n] >>
@@ -540,7 +540,7 @@ IMCall == /\ I.i = "mcall"
                               q == MethodIdx(cl, I.m)
                           IN IF q = 0 THEN FaultA("method") /\ UNCHANGED <<frames, syms, depth, nact>>
                              ELSE IF Len(cl.methods[q].params) # I.n THEN FaultA("arity") /\ UNCHANGED <<frames, syms, depth, nact>>
-                             ELSE Enter(cl.methods[q], <<100 * ClassIdx(c.cls) + q>>, root, as, rest, "") /\ UNCHANGED <<heap, exc>>
+                             ELSE Enter(cl.methods[q], <<100 * ClassIdx(c.cls) + q>>, root, as, rest, I.y) /\ UNCHANGED <<heap, exc>>
                      ELSE \* a method that STORES its (last) argument keeps its own copy of it, like an element assignment:
                           \* no later change through another name reaches it, and a collection can never contain itself
                           LET stores == I.m \in {"@append", "@prepend", "@put"} /\ I.n >= 1
